@@ -368,6 +368,14 @@ static FILE *open_file(char *path) {
   return out;
 }
 
+// Flush and close an output file, reporting a write error.
+static void close_file(FILE *out, char *path) {
+  if (fflush(out) || ferror(out))
+    error("cannot write output file: %s: %s", path ? path : "-", strerror(errno));
+  if (out != stdout)
+    fclose(out);
+}
+
 static bool endswith(char *p, char *q) {
   int len1 = strlen(p);
   int len2 = strlen(q);
@@ -483,6 +491,7 @@ static void print_tokens(Token *tok) {
     prev = tok;
   }
   fprintf(out, "\n");
+  close_file(out, opt_o);
 }
 
 static bool in_std_include_path(char *path) {
@@ -613,7 +622,7 @@ static void cc1(void) {
   // Write the asembly text to a file.
   FILE *out = open_file(output_file);
   fwrite(buf, buflen, 1, out);
-  fclose(out);
+  close_file(out, output_file);
 }
 
 static void assemble(char *input, char *output) {
